@@ -12,3 +12,21 @@ pub fn run(a: &Args) {
     let out = rt.block_on(rp::choose(&router, &deque, &flags, a.usize("last"), a.usize("hash"), a.u64("key"), a.usize("pool_size"), hint, &pool, a.usize("calls")));
     println!("out={}", out.replace('=', ":"));
 }
+
+/// route_kp workers=<wid:q.q:c.c;..> key=<k> pool_size=<n> hint=<w|none>
+pub fn route_kp(a: &Args) {
+    let lst = |s: &str| -> Vec<u64> { s.split('.').filter(|x| !x.is_empty()).map(|x| x.parse().unwrap()).collect() };
+    let workers: Vec<(usize, Vec<u64>, Vec<u64>)> = a
+        .str("workers")
+        .split(';')
+        .filter(|s| !s.is_empty())
+        .map(|s| {
+            let p: Vec<&str> = s.split(':').collect();
+            (p[0].parse().unwrap(), lst(p[1]), lst(p[2]))
+        })
+        .collect();
+    let hint = a.opt_u128("hint").map(|x| x as usize);
+    let rt = tokio::runtime::Builder::new_current_thread().enable_time().build().unwrap();
+    let out = rt.block_on(rp::route_key_persistent(&workers, a.u64("key"), a.usize("pool_size"), hint));
+    println!("out={}", out.replace('=', "~"));
+}
